@@ -133,7 +133,10 @@ def retry(
         for attempt in it.count(start=1):
             try:
                 response = func(*args, **kwargs)
-                if response.is_error and retry_strategy.codes and response.get_error().code in retry_strategy.codes:
+                if (
+                    response is not None and response.is_error
+                    and retry_strategy.codes and response.get_error().code in retry_strategy.codes
+                ):
                     delay = next(delays, None)
                     if delay is not None:
                         logger.debug("retrying request: attempt=%d, code=%s", attempt, response.error)
@@ -173,7 +176,10 @@ def retry_async(
         for attempt in it.count(start=1):
             try:
                 response = await func(*args, **kwargs)
-                if response.is_error and retry_strategy.codes and response.get_error().code in retry_strategy.codes:
+                if (
+                    response is not None and response.is_error
+                    and retry_strategy.codes and response.get_error().code in retry_strategy.codes
+                ):
                     delay = next(delays, None)
                     if delay is not None:
                         logger.debug("retrying request: attempt=%d, code=%s", attempt, response.error)
